@@ -6,8 +6,39 @@ construction: only the shape is recomputed), so "merely relabels" is about shape
 move-axis the data is permuted by `transposeData` along the order computed by NumPy's algorithm.
 -/
 import FuraxProofs.Lemmas.AxesBasic
+import FuraxProofs.Lemmas.MoveAxisPerm
 namespace Furax.C13
 open Furax Axes
+
+/-- **move-axis**: the axis order NumPy's algorithm computes is a permutation of all axes — every rank, every
+sign of the arguments, every number of moved axes -/
+theorem moveaxis_is_permutation (ndim : Nat) (src dst : List Int) (order : List Nat)
+    (h : moveaxisOrder ndim src dst = .ok order) : order.Perm (List.range ndim) :=
+  moveaxisOrder_perm ndim src dst order h
+
+/-- every moved axis lands at its destination (`out.shape[d_k] = in.shape[s_k]`) … -/
+theorem moveaxis_destinations (ndim : Nat) (src dst : List Int) (s d order : List Nat)
+    (hs : normAxisTuple ndim src = .ok s) (hd : normAxisTuple ndim dst = .ok d)
+    (h : moveaxisOrder ndim src dst = .ok order) :
+    ∀ k, k < s.length → order[d.getD k 0]? = some (s.getD k 0) :=
+  moveaxisOrder_dest ndim src dst s d order hs hd h
+
+/-- … and the other axes keep their relative order -/
+theorem moveaxis_rest_in_order (ndim : Nat) (src dst : List Int) (s order : List Nat)
+    (hs : normAxisTuple ndim src = .ok s) (h : moveaxisOrder ndim src dst = .ok order) :
+    order.filter (fun n => !s.contains n) = (List.range ndim).filter (fun n => !s.contains n) :=
+  moveaxisOrder_rest ndim src dst s order hs h
+
+/-- **the transpose (source and destination swapped) is the inverse**: it always exists and restores shape
+and data exactly — move-axis merely relabels elements -/
+theorem moveaxis_transpose_is_inverse {α} [Inhabited α] (t t' : Tensor α) (src dst : List Int)
+    (hwf : t.data.length = prodNat t.shape) (h : moveaxis t src dst = .ok t') :
+    moveaxis t' dst src = .ok t := moveaxis_roundtrip t t' src dst hwf h
+
+/-- arguments that cannot apply (an axis out of range, a repeated axis, tuples of different lengths) are
+rejected: whatever is accepted consists of distinct in-range axes -/
+theorem moveaxis_accepts_only_valid_axes (ndim : Nat) (axes : List Int) (l : List Nat)
+    (h : normAxisTuple ndim axes = .ok l) : l.Nodup ∧ ∀ x ∈ l, x < ndim := normAxisTuple_spec h
 
 /-- ravel preserves the number of elements of every leaf it accepts (all argument signs, all ranks) -/
 theorem ravel_preserves_size (first last : Int) (shape out : List Nat)
